@@ -316,9 +316,9 @@ Props/C05.vos Props/C05.vok Props/C05.required_vos: Props/C05.v Lib/Base.vos Gen
 Props/C06.vo Props/C06.glob Props/C06.v.beautified Props/C06.required_vo: Props/C06.v Lib/Base.vo Model/Matchers.vo Spec/C06.vo Corr/C06.vo Proof/C06Setwise.vo Proof/C06Leaves.vo Proof/C06.vo
 Props/C06.vio: Props/C06.v Lib/Base.vio Model/Matchers.vio Spec/C06.vio Corr/C06.vio Proof/C06Setwise.vio Proof/C06Leaves.vio Proof/C06.vio
 Props/C06.vos Props/C06.vok Props/C06.required_vos: Props/C06.v Lib/Base.vos Model/Matchers.vos Spec/C06.vos Corr/C06.vos Proof/C06Setwise.vos Proof/C06Leaves.vos Proof/C06.vos
-Props/C07.vo Props/C07.glob Props/C07.v.beautified Props/C07.required_vo: Props/C07.v Lib/Base.vo Spec/C07.vo Corr/C07.vo
-Props/C07.vio: Props/C07.v Lib/Base.vio Spec/C07.vio Corr/C07.vio
-Props/C07.vos Props/C07.vok Props/C07.required_vos: Props/C07.v Lib/Base.vos Spec/C07.vos Corr/C07.vos
+Props/C07.vo Props/C07.glob Props/C07.v.beautified Props/C07.required_vo: Props/C07.v Lib/Base.vo Model/TextRepr.vo Model/Assertions.vo Spec/C07.vo Corr/C07.vo Proof/C07Repr.vo Proof/C07Names.vo Proof/C07.vo
+Props/C07.vio: Props/C07.v Lib/Base.vio Model/TextRepr.vio Model/Assertions.vio Spec/C07.vio Corr/C07.vio Proof/C07Repr.vio Proof/C07Names.vio Proof/C07.vio
+Props/C07.vos Props/C07.vok Props/C07.required_vos: Props/C07.v Lib/Base.vos Model/TextRepr.vos Model/Assertions.vos Spec/C07.vos Corr/C07.vos Proof/C07Repr.vos Proof/C07Names.vos Proof/C07.vos
 Props/C08.vo Props/C08.glob Props/C08.v.beautified Props/C08.required_vo: Props/C08.v Lib/Base.vo Model/Adapters.vo Spec/C08.vo Corr/C08.vo Proof/C08.vo
 Props/C08.vio: Props/C08.v Lib/Base.vio Model/Adapters.vio Spec/C08.vio Corr/C08.vio Proof/C08.vio
 Props/C08.vos Props/C08.vok Props/C08.required_vos: Props/C08.v Lib/Base.vos Model/Adapters.vos Spec/C08.vos Corr/C08.vos Proof/C08.vos
